@@ -130,8 +130,8 @@ class C12(core.PropertyCheck):
         if path.startswith("includes/extracts"):
             # every output key belongs to one source file (hypothesis `owns` of the theorems): two YAML files defining the
             # same ref would make even the clean build depend on directory listing order
-            pool = ["foo", "bar", "baz"] if path.endswith("-a.yaml") else ["qux", "quux", "corge"]
-            refs = rng.sample(pool, rng.randint(1, 3))
+            pool = ["foo", "bar", "baz"] if path.endswith("-a.yaml") else (["grault", "garply"] if path.endswith("-c.yaml") else ["qux", "quux", "corge"])
+            refs = rng.sample(pool, rng.randint(1, len(pool)))
             docs = []
             for r in refs:
                 body = self.words(rng, rng.randint(1, 4))
@@ -145,6 +145,18 @@ class C12(core.PropertyCheck):
                         # overrides ONE of the two keys the parent's text uses; the other one keeps coming from the parent
                         own = "replacement:\n" + f'  {rng.choice(["user", "datadir"])}: "{self.words(rng, 1)}"\n' + ('  port: "27017"\n' if rng.random() < 0.3 else "")
                     docs.append(f"ref: {r}\nsource:\n  file: extracts-a.yaml\n  ref: {rng.choice(['foo', 'bar', 'baz'])}\n{own}")
+                    continue
+                if getattr(self, "_xfile", True):
+                    x = rng.random()
+                    if x < 0.12:      # a source constant, declared ({+version+}) or not: reported at its line of the FILE
+                        body += " uses {+" + rng.choice(["version", "nosuchconst"]) + "+}"
+                    elif x < 0.2:     # an rst-level problem inside the generated page
+                        body += " :nosuchrole:`x`"
+                    elif x < 0.3:     # a generated page with a dependency of its own (every page of the file keeps its edges)
+                        body += "\n\n  .. literalinclude:: /code/sample.py\n     :language: python"
+                if path.endswith("-c.yaml"):
+                    # second level of cross-file inheritance: c <- b <- a
+                    docs.append(f"ref: {r}\nsource:\n  file: extracts-b.yaml\n  ref: {rng.choice(['qux', 'quux', 'corge'])}\n")
                     continue
                 if getattr(self, "_xfile", True) and rng.random() < 0.4:
                     # placeholders filled from the entry's own replacement table (and, in heirs, from the heir's)
@@ -190,7 +202,7 @@ class C12(core.PropertyCheck):
         pages = [f"page{i + 1}" for i in range(npages)]
         yaml = rng.choice(["includes/extracts-a.yaml", "includes/extracts-a.yaml", "includes/steps-setup.yaml"])
         ctx = {"pages": pages, "yaml": yaml}
-        toml = 'name = "c12"\n'
+        toml = 'name = "c12"\n\n[constants]\nversion = "4.2"\n'
         if rng.random() < 0.5:
             # project-wide substitutions holding link roles without a title of their own: the title is injected at every use,
             # on every postprocessing run, from whatever the target's heading currently is
@@ -204,6 +216,8 @@ class C12(core.PropertyCheck):
         src[yaml] = None
         if yaml.startswith("includes/extracts") and rng.random() < 0.5:
             src["includes/extracts-b.yaml"] = None
+            if kind != "corr" and rng.random() < 0.5:
+                src["includes/extracts-c.yaml"] = None
         src["code/sample.py"] = None
         src["images/a.png"] = None
         for p in list(src):
